@@ -411,6 +411,16 @@ func runC09(c *Check) {
 		for i, ci := range p.Calls(M, fnIssueFailover) {
 			c.Gate(fa, ci, nthKey("filing", i+1)+":not-light", "light maintenance suppresses automatic failover", m.light(false))
 		}
+		// a pending request of failover type — automatic or forced by the operator — is parked in light mode:
+		// approval, start and the procedure itself are reached only with light mode off or a transition other than failover
+		np := 0
+		for _, ci := range p.Calls(M, "(*app.App).approveSwitchover", "(*app.App).StartSwitchover", "(*app.App).performSwitchover") {
+			np++
+			c.Gate(fa, ci, nthKey("request-processing", np)+":failover-parked-in-light", "light maintenance suppresses failover, automatic or operator-forced: a request is processed only outside light mode or when its transition is not 'failover' (the cause of the request plays no role)", m.light(false), func(l Lit) bool {
+				return !l.Pos && l.T.Op == "eq" && l.T.Args[0].IsField("MasterTransition") && l.T.Args[1].IsConst("failover")
+			})
+		}
+		c.Req(np >= 3, name, "-", "request-processing", "approval, start and procedure sites found", fmt.Sprintf("%d", np))
 	})
 
 	c.Rule("C09.LEAVE", func() {
